@@ -66,7 +66,7 @@ def hdr_get(header, key, default=None):
     return default
 
 
-NAME = re.compile(r"^c16log\.(\d{4})(\d\d)(\d\d)-(\d\d)(\d\d)(\d\d)\.(.+)\.(\d+)\.log$")
+NAME = re.compile(r"^(?:c16log|c16s\d+)\.(\d{4})(\d\d)(\d\d)-(\d\d)(\d\d)(\d\d)\.(.+)\.(\d+)\.log$")
 
 
 def name_epoch(name, host=None, pid=None):
@@ -112,7 +112,7 @@ def canon_impl(lines):
 
 
 def is_async(case):
-    return case.header.split()[0] in ("async", "free", "lfree")
+    return case.header.split()[0] in ("async", "free", "lfree", "multi")
 
 
 def canon_for_compare(case, lines, impl):
@@ -313,6 +313,92 @@ def parse_stream(stream, lens, T):
     for t in range(T):
         missing += [(t, j) for j in range(nxt[t], len(lens[t]))]
     return items, missing, None
+
+
+def oracle_multi(case, lines, casedir):
+    """Several sinks alive in one process and written alternately: the files of sink k (basename c16s<k>), in name
+    order, concatenated, are exactly the records given to sink k, in order - nothing of another sink, nothing missing."""
+    kinds = hdr_get(case.header, "sinks", "LL")
+    K = len(kinds)
+    seqs = [0] * K
+    alive = [True] * K
+    want = [bytearray() for _ in range(K)]
+    bounds = [{0} for _ in range(K)]
+    for op in case.ops:
+        t = op.split()
+        if t[0] == "W" and int(t[1]) < K and alive[int(t[1])]:
+            k = int(t[1])
+            for _ in range(int(t[2])):
+                want[k] += make_record(k, seqs[k], min(len_at(t[3], seqs[k]), 8000))
+                bounds[k].add(len(want[k]))
+                seqs[k] += 1
+        elif t[0] == "X" and int(t[1]) < K:
+            alive[int(t[1])] = False
+    host = pid = None
+    names = []
+    for l in lines:
+        if l.startswith("h "):
+            _, host, pid = l.split()
+        elif l.startswith("f "):
+            names.append(l.split()[1])
+    if any(l.startswith("e ") for l in lines):
+        return "an overload drop was announced in a case that fills no buffer"
+    for k in range(K):
+        mine = sorted(n for n in names if n.startswith("c16s%d." % k))
+        if not mine:
+            return "sink %d (%s) produced no file" % (k, kinds[k])
+        if any(name_epoch(n, host, pid) is None for n in mine):
+            return "sink %d: a file name is not basename.YYYYmmdd-HHMMSS.%s.%s.log: %s" % (k, host, pid, mine[:2])
+        got, acc = b"", 0
+        for n in mine:
+            part = open(os.path.join(casedir, n), "rb").read()
+            got += part
+            acc += len(part)
+            if acc not in bounds[k] and acc <= len(want[k]):
+                return "sink %d: a record is split across two files (file boundary at offset %d)" % (k, acc)
+        if got != bytes(want[k]):
+            i = next((i for i in range(min(len(got), len(want[k]))) if got[i] != want[k][i]), min(len(got), len(want[k])))
+            other = chr(got[i]) if i < len(got) else "?"
+            return ("sink %d (%s): its files (%d bytes) are not exactly the records given to it (%d bytes): first difference at offset %d "
+                    "(found byte %r there; records of sink j start with chr(97+j)) - the sinks of one process are not independent"
+                    % (k, kinds[k], len(got), len(want[k]), i, other))
+    left = [n for n in names if not re.match(r"c16s\d+\.", n)]
+    if left:
+        return "unexpected files %s" % left[:3]
+    return None
+
+
+def multi_cases(rng):
+    """Two and three sinks alive at once, written alternately without flushing in between, destroyed one after the other."""
+    cs = []
+    def body(kinds, rounds, lens, now):
+        ops = []
+        K = len(kinds)
+        for r in range(rounds):
+            for k in range(K):
+                ops.append("W %d %d %s" % (k, rng.randint(1, 6), lens))
+            if r % 3 == 2:
+                ops.append("P 12")
+            if r % 2 == 1:
+                ops.append("T %d" % (now + r + rng.choice([0, 1, 5])))      # lets size / day rolls happen
+        return ops
+    for i, (kinds, lens) in enumerate([("LL", "@20:300:%d" % rng.randint(1, 9999)), ("LA", "@20:300:%d" % rng.randint(1, 9999)),
+                                       ("AL", "@100:2000:%d" % rng.randint(1, 9999)), ("AA", "@100:3000:%d" % rng.randint(1, 9999)),
+                                       ("LLL", "@1:120:%d" % rng.randint(1, 9999)), ("LAL", "@20:500:%d" % rng.randint(1, 9999)),
+                                       ("AAL", "@50:800:%d" % rng.randint(1, 9999))]):
+        now = rng.choice([1000, 86395])
+        ops = body(kinds, rng.randint(4, 9), lens, now)
+        # destroy in a random order while the others still hold buffered data
+        order = list(range(len(kinds)))
+        rng.shuffle(order)
+        for j, k in enumerate(order[:-1]):
+            ops.append("X %d" % k)
+            ops.append("W %d 2 %s" % (order[-1], lens))
+        if kinds[order[-1]] == "L" and rng.random() < 0.5:
+            ops.append("F %d" % order[-1])
+        cs.append(vlib.Case("multi_%s_%d" % (kinds, i), "multi sinks=%s roll=%d flush=3 every=%d now=%d"
+                            % (kinds, rng.choice([1000000000, 5000, 20000]), rng.choice([1, 7, 1024]), now), ops, "multi-sink"))
+    return cs
 
 
 def oracle_async(case, lines, casedir):
@@ -771,6 +857,7 @@ def run(chk, replay=None):
         cases += [gen_seq(rng, "s%d" % i, big=(i % 25 == 24)) for i in range(nseq)]
         cases += [gen_async(rng, "a%d" % i) for i in range(nasync)]
         cases += [gen_async(rng, "h%d" % i, heavy=True) for i in range(nheavy)]
+        cases += multi_cases(rng)
         cases += free_cases(rng, tier)
     heavy = [c for c in cases if c.tag in ("overload", "async-overload", "free-running")]
     light = [c for c in cases if c not in heavy]
@@ -833,9 +920,13 @@ def run(chk, replay=None):
             oracle_bad.append((c, "no implementation output"))
             continue
         try:
-            o = oracle_async(c, li, casedir) if is_async(c) else oracle_seq(c, li, casedir)
-            if o is not None and not is_async(c):
-                o = (None, o)
+            if c.header.split()[0] == "multi":
+                o = oracle_multi(c, li, casedir)
+                o = (None, o) if o is not None else None
+            else:
+                o = oracle_async(c, li, casedir) if is_async(c) else oracle_seq(c, li, casedir)
+                if o is not None and not is_async(c):
+                    o = (None, o)
         except Exception as e:   # noqa
             o = (None, "oracle could not evaluate the output: %r" % (e,))
         shutil.rmtree(casedir, ignore_errors=True)
@@ -863,6 +954,8 @@ def run(chk, replay=None):
             ev.add("roll")
         if any(op.startswith("A ") and not op.endswith(" -") and not is_async(c) for op in c.ops):
             ev.add("short-write")
+        if c.tag == "multi-sink":
+            ev.add("multi")
         if c.tag == "free-running":
             ev.add("free")
             fb = sum(int(l.split()[2]) for l in li if l.startswith("f "))
